@@ -175,6 +175,11 @@ theorem typed_data_signature (C : Model.Secp.Curve) (hC : C.Lawful) (k : Nat) (h
     simp only [hsig] at this
     exact this
 
+/-- **The digest is 32 bytes.** -/
+theorem digest_length (fuel : Nat) (p : TypedData) (d : Bytes) (h : encodeTypedDataV4 fuel p = .ok d) : d.length = 32 := by
+  obtain ⟨dh, _, h2⟩ := digest_shape fuel p d h
+  rcases h2 with ⟨_, sh, _, hd⟩ | ⟨_, hd⟩ <;> rw [hd] <;> exact Prim.keccak256_length _
+
 /-! ### non-vacuity: a concrete document on which the theorems' hypotheses hold (evaluated by the kernel) -/
 
 def exDoc : TypedData :=
